@@ -5,7 +5,7 @@ PID = "C04"
 LEVEL = cc.LEVEL
 BUILDS = cc.BUILDS
 CASE_TIMEOUT = cc.CASE_TIMEOUT
-LEAN_MODULES = ["AsynqModel.Theorems.C04"]
+LEAN_MODULES = ['AsynqModel.Theorems.C04', 'AsynqModel.Theorems.Acyclic']
 THEOREMS = ["AsynqModel.Core." + n for n in ['C04_ctl_shape', 'C04_settled_at_flush', 'C04_settled_at_flush_step', 'C04_settled_stable', 'C04_no_item_completes_between_flushes', 'C04_flush_only_when_stack_at_base', 'C04_static', 'C04_settled_at_flush_static', 'C04_settled_stable_static', 'C04_no_item_completes_between_flushes_static', 'C04_flush_only_when_stack_at_base_static', 'C04_settledB_sound', 'C04_run_reach', 'C04_dagRun_reach']]
 MIX = [('yield',4),('yield_err',3),('yield_ctx',2)]
 RULE = ("grammar-generated task programs (profiles %s; trees and DAGs of tasks, 1-3 batch kinds with priority overrides "
